@@ -430,6 +430,7 @@ type rTbl struct {
 	pkGarbled      bool
 	fkFailIdx      bool
 	renamedWithIdx bool
+	chkLeak        bool
 	everIdx        bool // a secondary index was created on the table at some point
 }
 type rFK struct {
@@ -664,6 +665,15 @@ func (r *refT) rejected(o opT) {
 			}
 		}
 	}
+	if o.Kind == "DropColumn" {
+		if t := r.Tables[o.T]; t != nil {
+			for _, k := range t.Chk {
+				if k.Col == o.C {
+					t.chkLeak = true
+				}
+			}
+		}
+	}
 	if o.Kind == "AddFK" {
 		if t := r.Tables[o.T]; t != nil {
 			if f := r.FKs[o.U]; f != nil && f.Table != o.T && t.everIdx && !t.hasIndexWithPrefix(o.Cols) {
@@ -735,6 +745,11 @@ func (r *refT) check(o obsT) *failure {
 		for n, t := range r.Tables {
 			if t.fkFailIdx && diffVals[enc(n)] {
 				return "failed-add-fk/name-taken-in-other-table/leaves-index"
+			}
+		}
+		for n, t := range r.Tables {
+			if t.chkLeak && diffVals[enc(n)] {
+				return "failed-drop-column/drops-check-constraints"
 			}
 		}
 		for n := range r.failedRenameFK {
@@ -864,7 +879,7 @@ func (r *refT) check(o obsT) *failure {
 	if f := cmp("REFERENTIAL_CONSTRAINTS", o.Refs, []int{0, 2, 3}, wantRefs, tableCause); f != nil {
 		return f
 	}
-	if f := cmp("CHECK_CONSTRAINTS", o.Checks, nil, wantChecks, plain); f != nil {
+	if f := cmp("CHECK_CONSTRAINTS", o.Checks, nil, wantChecks, tableCause); f != nil {
 		return f
 	}
 	// a primary key column is flagged PRI, and only members of the key (when the table has one)
@@ -1093,6 +1108,9 @@ func genOp(r *lib.RNG, ref *refT) opT {
 		}
 		return o
 	case w < 32:
+		if tb := ref.Tables[t]; tb != nil && len(tb.Cols) == 1 && !r.Chance(1, 6) {
+			return opT{Kind: "AddColumn", T: t, C: freeC(t), Ty: r.Range(1, 3), Null: r.Bool()}
+		}
 		return opT{Kind: "DropColumn", T: t, C: pickC(t)}
 	case w < 42:
 		return opT{Kind: "RenameColumn", T: t, C: pickC(t), C2: freeC(t)}
@@ -1263,6 +1281,9 @@ func runCase(c *lib.Ctx, ops []opT, r *lib.RNG, n int) {
 		if fail == nil {
 			if res.Panic != "" {
 				sig := "panic/" + o.Kind
+				if t := ref.Tables[o.T]; t != nil && len(t.Cols) == 0 {
+					sig = "panic/" + o.Kind + "/table-without-columns"
+				}
 				if o.Kind == "DropColumn" {
 					if t := ref.Tables[o.T]; t != nil && idxOf(t.PK, o.C) >= 0 {
 						sig = "panic/drop-column/primary-key-column"
@@ -1332,6 +1353,24 @@ func corpus() [][]opT {
 		// known: SHOW COLUMNS and information_schema.COLUMNS disagree on the key flag
 		{ct("t0", []string{"c0"}, i("c0", false), i("c1", true)), {Kind: "CreateIndex", T: "t0", U: "i0", Cols: []string{"c1"}, Uniq: true},
 			{Kind: "CreateIndex", T: "t0", U: "i1", Cols: []string{"c1"}}},
+		// known: ACTION_ORDER counted across tables
+		{ct("t0", []string{}, i("c0", true)), ct("t1", []string{}, i("c0", true)),
+			{Kind: "CreateTrigger", U: "g0", T: "t1", Before: true, Ev: 1}, {Kind: "CreateTrigger", U: "g1", T: "t0", Before: true, Ev: 1}},
+		// known: DROP COLUMN of a UNIQUE index column of a keyless table panics
+		{ct("t2", []string{}, i("c4", true), colDef{"c0", 2, false}, i("c2", true)),
+			{Kind: "CreateIndex", T: "t2", U: "i3", Cols: []string{"c2"}, Uniq: true}, {Kind: "DropColumn", T: "t2", C: "c2"}},
+		// known: column-less table, then ADD COLUMN / CREATE INDEX panic
+		{ct("t1", []string{}, colDef{"c0", 3, false}), {Kind: "DropColumn", T: "t1", C: "c0"}, {Kind: "AddColumn", T: "t1", C: "c2", Ty: 1, Null: true}},
+		{ct("t0", []string{}, i("c2", false)), {Kind: "DropColumn", T: "t0", C: "c2"}, {Kind: "CreateIndex", T: "t0", U: "i0", Cols: []string{"c0", "c5"}},
+			{Kind: "AddColumn", T: "t0", C: "c1", Ty: 1, Null: true, Pos: 1}},
+		// known: SHOW INDEXES keeps the old table name after RENAME TABLE
+		{ct("t0", []string{"c0"}, i("c0", false), i("c1", true)), {Kind: "CreateIndex", T: "t0", U: "i0", Cols: []string{"c1"}},
+			{Kind: "RenameTable", T: "t0", U: "t2"}},
+		// known: failed RENAME TABLE rewrites foreign keys
+		{ct("t1", []string{"c0"}, i("c0", false)), ct("t2", []string{"c0"}, i("c0", false), i("c1", true)), ct("t3", []string{"c0"}, i("c0", false)),
+			{Kind: "AddFK", T: "t2", U: "f0", Cols: []string{"c1"}, Parent: "t1", PCols: []string{"c0"}}, {Kind: "RenameTable", T: "t1", U: "t3"}},
+		// known: key flag of a keyless table with composite UNIQUE NOT NULL index
+		{ct("t3", []string{}, colDef{"c4", 2, false}, i("c3", false)), {Kind: "CreateIndex", T: "t3", U: "i1", Cols: []string{"c4", "c3"}, Uniq: true}},
 		// name clashes between tables and views, foreign key life cycle, primary key changes
 		{ct("t0", []string{}, i("c0", true), i("c1", true)), {Kind: "CreateView", U: "t1", T: "t0", Cols: []string{"c0"}},
 			ct("t1", []string{}, i("c0", true)), {Kind: "RenameTable", T: "t0", U: "t1"}, {Kind: "CreateView", U: "t0", T: "t0", Cols: []string{"c0"}},
